@@ -354,7 +354,17 @@ size_t ZSTD_freeDCtx(ZSTD_DCtx* dctx)
 void ZSTD_copyDCtx(ZSTD_DCtx* dstDCtx, const ZSTD_DCtx* srcDCtx)
 {
     size_t const toCopy = (size_t)((char*)(&dstDCtx->inBuff) - (char*)dstDCtx);
+    /* what dstDCtx owns, and how it was allocated, remain its own :
+     * the copy only borrows the dictionaries of srcDCtx (which must outlive their use) */
+    ZSTD_customMem const customMem = dstDCtx->customMem;
+    size_t const staticSize = dstDCtx->staticSize;
+    ZSTD_DDict* const ddictLocal = dstDCtx->ddictLocal;
+    ZSTD_DDictHashSet* const ddictSet = dstDCtx->ddictSet;
     ZSTD_memcpy(dstDCtx, srcDCtx, toCopy);  /* no need to copy workspace */
+    dstDCtx->customMem = customMem;
+    dstDCtx->staticSize = staticSize;
+    dstDCtx->ddictLocal = ddictLocal;
+    dstDCtx->ddictSet = ddictSet;
 }
 
 /* Given a dctx with a digested frame params, re-selects the correct ZSTD_DDict based on
